@@ -86,6 +86,11 @@ CHECKS["C20"] = ("well-formedness monitor on every error object from every entry
          "Exploration with an exhaustive part: every path of names and indices up to length 4 (quick, 7.4k) / 6 (thorough, 600k) over {a, empty, b.c, 0, quoted unicode, 0, 1, 7, 2^31-1} round-trips through JSON; 24k / 480k error-biased cases (token-mutated documents of both grammars with hostile trivia, lexical soups, faulted schemas over named sources, faulted documents under every rule, defective variable maps) feed ~12k error objects per quick run through the shape checks, counted by (entry point, message template).",
          "The token-limit error (plain error, no source) and Validate's nil-argument guard errors are only checked for a non-empty message.",
          "DESIGN.md §4 C20")
+ 
+CHECKS["C11"] = ("Go race detector (go build -race) over concurrent histories on one shared schema with seeded yield injection at hook sites + deep reflective schema snapshot (slices to capacity) before/after + per-call result equality against sequential baselines",
+         "Exploration: 120 (quick) / 600 (thorough) rounds; in each, one generated schema is shared by 2-32 goroutines running 40 / 120 seeded operations each on their own documents (validate with default and explicit rule lists, VariableValues, ArgumentMap over whole documents, FormatSchema, relation lookups): ~37k concurrent operations per quick run under the race detector. Any race report touching gqlparser, any snapshot difference and any result that differs from the same call run alone (before and after the round) is a violation; the evidence lists distinct completion orders observed.",
+         "Interleavings are those the scheduler produced (yield probability 0, 3%, 30% at walker events); happens-before race detection does not need the bad interleaving to occur. Races inside the harness itself would be reported as a broken check, not as a violation.",
+         "DESIGN.md §4 C11")
 
 PENDING_REASON = "check under construction in this round (design in DESIGN.md §4); not claimed until its monitor runs clean on the unchanged tree"
 
